@@ -468,6 +468,14 @@ def d5(cx: Cx, ob: Ob) -> None:
                     ob.site(f"{where(fn, line)} {fn.qualname}", f"skip path ({kind})")
                     for ev in stores:
                         ob.violate(fn.qualname, where(fn, ev.line), f"a record is modified on the {kind} path, which must leave everything untouched", detail="store-on-skip")
+            elif owned and own is True and not stores and unknown is not True and (id(p), "own") not in reported and any(
+                g.kind == "guard" and g.b is True and op(g.a) == "cmp" and g.a[1] == "==" and new in (g.a[2], g.a[3])
+                and any(op(y) in ("item", "call") and any(op(z) == "attr" and z[2] == "synonym_to_prefix" for z in subterms(y)) or (op(y) == "call" and callee_name(y) == "standardize_prefix") or (op(y) == "attr" and y[2] == "prefix") for y in ((g.a[3] if g.a[2] == new else g.a[2]),))
+                for g in p.events
+            ):
+                # the new prefix IS the canonical prefix of the record `old` stands for: the pair is already satisfied
+                reported.add((id(p), "own"))
+                ob.site(f"{where(fn, line)} {fn.qualname}", "skip path (already satisfied: the new prefix is the record's canonical prefix)")
             elif owned and own is True and not stores and unknown is not True and (id(p), "own") not in reported:
                 reported.add((id(p), "own"))
                 ob.violate(fn.qualname, where(fn, line), "the clash test does not exempt the record's own names: remapping onto an existing synonym of the same record is skipped", detail="clash-own-synonym")
